@@ -231,6 +231,8 @@ def plans_C05(g, tier):
         plans.append(dict(name='seq3_times_first', mask=mask, du=0, dm=5, alphabet=alpha,
                           prefixes=seq_configs(g, 3, [(1, 1), (0, INF), (2, 2)], any_matchers=False, times_first=(0, 1, 2)) +
                                    seq_configs(g, 3, [(1, 1), (0, INF), (2, 2)], any_matchers=False, times_first=(1,))))
+        tp, ta = two_object_prefixes(g)
+        plans.append(dict(name='seq_two_objects', mask=mask, du=0, dm=4, alphabet=ta, prefixes=tp))
         malpha = alpha + [g.op(OP_DELETE_WATCHED, obj=w) for w in range(2)]
         plans.append(dict(name='seq3mon', mask=mask, du=0, dm=5, alphabet=malpha,
                           prefixes=[p for p in seq_configs(g, 3, [(1, 1), (0, INF)], with_monitors=True, any_matchers=False) if any(o[0] == OP_MONITOR for o in p)]))
@@ -239,6 +241,8 @@ def plans_C05(g, tier):
         plans.append(dict(name='seq3_times_first', mask=mask, du=0, dm=6, alphabet=alpha,
                           prefixes=seq_configs(g, 3, BOUNDS_Q, any_matchers=False, times_first=(0, 1, 2)) + seq_configs(g, 3, BOUNDS_Q, any_matchers=False, times_first=(1,)) +
                                    seq_configs(g, 3, BOUNDS_Q, any_matchers=False, times_first=(0, 2))))
+        tp, ta = two_object_prefixes(g)
+        plans.append(dict(name='seq_two_objects', mask=mask, du=0, dm=6, alphabet=ta, prefixes=tp))
         malpha = alpha + [g.op(OP_DELETE_WATCHED, obj=w) for w in range(3)]
         plans.append(dict(name='seq3mon', mask=mask, du=0, dm=6, alphabet=malpha,
                           prefixes=[p for p in seq_configs(g, 3, BOUNDS_Q, with_monitors=True, any_matchers=False) if any(o[0] == OP_MONITOR for o in p)]))
@@ -337,6 +341,19 @@ def c02_configs(g, matchers, bounds, masks=(0, 1, 2, 3), with_variant=True):
 M_C02 = F_KIND | F_HANDLER | F_CLOG | F_QEXP
 
 
+def two_object_prefixes(g):
+    """Two mock objects sharing a sequence: the death of one object does not release the steps registered on it."""
+    two_pre = []
+    for b0, b1 in itertools.product([(1, 1), (0, INF), (1, 2)], repeat=2):
+        for ar2 in (0, 1):
+            two_pre.append([g.create(0, g.shape(fn=F1, mk1='ANY', seqar=1, nse=1), obj=0, lo=b0[0], hi=b0[1], s1=0),
+                            g.create(1, g.shape(fn=F1, mk1='ANY', seqar=1, nse=1), obj=1, lo=b1[0], hi=b1[1], s1=0),
+                            g.create(2, g.shape(fn=F1, mk1='EQ', seqar=ar2, nse=1), obj=1, k1=1, lo=0, hi=INF, s1=0),
+                            g.create(3, g.shape(fn=F1, mk1='ANY', seqar=0, nse=1), obj=1, lo=0, hi=INF)][::1])
+    two_alpha = [g.call(0, F1, 1), g.call(1, F1, 1), g.call(1, F1, 2), g.op(OP_DESTROY_MOCK, obj=0), g.op(OP_DESTROY_MOCK, obj=1), g.op(OP_DESTROY_SEQ, s1=0)] + [g.release(i) for i in range(4)]
+    return two_pre, two_alpha
+
+
 def monitor_prefixes(g):
     """A destruction requirement inside the sequences, between two call steps: once the object has died the step is no longer pending
     and must not count as a passed-over step; the steps before it are passed for good."""
@@ -381,15 +398,7 @@ def plans_C02(g, tier):
     mv_plan = dict(name='sel_moved_mock', mask=M_C02, du=0, dm=4 if tier == 'quick' else 6, alphabet=mv_alpha, prefixes=mv_pre)
     mon_pre = monitor_prefixes(g)
     mon_alpha = calls + [g.op(OP_DELETE_WATCHED, obj=0), g.op(OP_DESTROY_SEQ, s1=0), g.op(OP_DESTROY_SEQ, s1=1)] + [g.release(i) for i in range(4)]  # a sequence object may die first: its steps are then unordered
-    # two mock objects sharing the sequences: the death of one object does not release the steps registered on it
-    two_pre = []
-    for b0, b1 in itertools.product([(1, 1), (0, INF), (1, 2)], repeat=2):
-        for ar2 in (0, 1):
-            two_pre.append([g.create(0, g.shape(fn=F1, mk1='ANY', seqar=1, nse=1), obj=0, lo=b0[0], hi=b0[1], s1=0),
-                            g.create(1, g.shape(fn=F1, mk1='ANY', seqar=1, nse=1), obj=1, lo=b1[0], hi=b1[1], s1=0),
-                            g.create(2, g.shape(fn=F1, mk1='EQ', seqar=ar2, nse=1), obj=1, k1=1, lo=0, hi=INF, s1=0),
-                            g.create(3, g.shape(fn=F1, mk1='ANY', seqar=0, nse=1), obj=1, lo=0, hi=INF)][::1])
-    two_alpha = [g.call(0, F1, 1), g.call(1, F1, 1), g.call(1, F1, 2), g.op(OP_DESTROY_MOCK, obj=0), g.op(OP_DESTROY_MOCK, obj=1), g.op(OP_DESTROY_SEQ, s1=0)] + [g.release(i) for i in range(4)]
+    two_pre, two_alpha = two_object_prefixes(g)
     two_plan = dict(name='sel_two_objects', mask=M_C02, du=0, dm=4 if tier == 'quick' else 6, alphabet=two_alpha, prefixes=two_pre)
     mon_plan = dict(name='sel_with_monitor', mask=M_C02, du=0, dm=4 if tier == 'quick' else 6, alphabet=mon_alpha, prefixes=mon_pre)
     if tier == 'quick':
